@@ -7,6 +7,7 @@ import ast
 from sa.cfg import expr_guards, facts
 from sa.consteval import NT, UNKNOWN, Folder
 from sa.model import AnalysisError, Finding, FunctionInfo, loc, names_in, src
+from sa.strshape import literal_fragments, literal_prefixes
 
 
 def _consts(node, typ=str):
@@ -72,18 +73,10 @@ def rule_table_style(prog, rep, tier):
     # hard-coded headers (string constants that look like section headers) in emit.docstring
     # ReST markers from emit_param_str
     eps = prog.fn("docstring_utils.emit_param_str")
-    rest_markers = []
-    for n in ast.walk(eps.node):
-        if isinstance(n, ast.Assign) and isinstance(n.targets[0], ast.Tuple) and isinstance(n.value, ast.IfExp):
-            for br in (n.value.body, n.value.orelse):
-                if isinstance(br, ast.Tuple):
-                    for e in br.elts:
-                        c = e if isinstance(e, ast.Constant) else (e.func.value if isinstance(e, ast.Call) and isinstance(e.func, ast.Attribute) and isinstance(e.func.value, ast.Constant) else None)
-                        if c is not None and isinstance(c.value, str):
-                            txt = c.value.split("{")[0]
-                            rest_markers.append((":" + txt + ("" if "{" in c.value else ":"), e))
-    if len(rest_markers) < 4:
-        raise AnalysisError("TABLE-style: only %d ReST line markers recovered from emit_param_str" % len(rest_markers))
+    rest_markers = sorted(literal_prefixes(eps.node, eps.node, starts_with=":").items())
+    rest_markers = [(m.rstrip(), e) for m, e in rest_markers]
+    if len({m for m, _ in rest_markers}) < 4:
+        raise AnalysisError("TABLE-style: only %d ReST line markers recovered from emit_param_str: %r" % (len(rest_markers), [m for m, _ in rest_markers]))
     H["rest"] = H.get("rest", []) + rest_markers
     n = 0
     for s in styles:
@@ -209,12 +202,11 @@ def rule_table_cvar(prog, rep, tier):
                               "comes back as an ordinary parameter" % (key_w, key_w), loc(prog, pc.node)))
     # the ':returns:' text replaced must be what the ReST line writer produces
     eps = prog.fn("docstring_utils.emit_param_str")
-    ret_keys = [x.value for n in ast.walk(eps.node) if isinstance(n, ast.Assign) and isinstance(n.value, ast.IfExp) and isinstance(n.value.body, ast.Tuple)
-                for x in n.value.body.elts if isinstance(x, ast.Constant)]
-    if ret_keys and (":%s:" % ret_keys[0]) in a:
-        rep.holds("TABLE-cvar", "class emitter replaces %r, the marker the ReST writer produces for the return entry" % (":%s:" % ret_keys[0]), loc(prog, c), "")
+    ret_markers = [m.rstrip() for m in literal_prefixes(eps.node, eps.node, starts_with=":return")]
+    if ret_markers and any(m in a for m in ret_markers):
+        rep.holds("TABLE-cvar", "class emitter replaces %r, a marker the ReST writer produces for the return entry" % ret_markers[0], loc(prog, c), "")
     else:
-        rep.violation(Finding("TABLE-cvar", "emit.class_", "returns-marker", "emit.class_ replaces %r but the ReST writer produces %r for the return entry" % (a, ret_keys[:1]), loc(prog, c)))
+        rep.violation(Finding("TABLE-cvar", "emit.class_", "returns-marker", "emit.class_ replaces %r but the ReST writer produces %r for the return entry" % (a, ret_markers), loc(prog, c)))
 
 
 # ---------------------------------------------------------------------------- TABLE-kind (C03)
@@ -282,6 +274,19 @@ def rule_table_argparse(prog, rep, tier):
         if isinstance(c, ast.Compare) and len(c.ops) == 1 and isinstance(c.ops[0], ast.Eq) and isinstance(c.left, ast.Attribute) and c.left.attr == "arg" \
                 and isinstance(c.comparators[0], ast.Constant):
             kw_r.add(c.comparators[0].value)
+        elif isinstance(c, ast.Call):
+            # a helper that selects a keyword by name: helper(..., "<name>") where the helper compares <kw>.arg with that parameter
+            for t in prog.resolve_expr_fn(c.func, c):
+                if isinstance(t, FunctionInfo) and t is not r:
+                    cmp_params = {x.comparators[0].id for x in ast.walk(t.node) if isinstance(x, ast.Compare) and len(x.ops) == 1 and isinstance(x.ops[0], ast.Eq)
+                                  and isinstance(x.left, ast.Attribute) and x.left.attr == "arg" and isinstance(x.comparators[0], ast.Name)}
+                    pn = t.params()
+                    for i, a_ in enumerate(c.args):
+                        if i < len(pn) and pn[i] in cmp_params and isinstance(a_, ast.Constant):
+                            kw_r.add(a_.value)
+                    for k_ in c.keywords:
+                        if k_.arg in cmp_params and isinstance(k_.value, ast.Constant):
+                            kw_r.add(k_.value.value)
     if len(kw_w) < 4 or len(kw_r) < 4:
         raise AnalysisError("TABLE-argparse: keyword tables not recovered (writer %r, reader %r)" % (sorted(kw_w), sorted(kw_r)))
     for k, c in sorted(kw_w.items()):
@@ -367,7 +372,15 @@ def _announce_reader(prog, folder):
             e = c.args[1]
             if isinstance(e, ast.IfExp):
                 e = e.body
-            v = folder.fold(e, {}, e)
+            cands = [e]
+            if isinstance(e, ast.Name):
+                cands = [st.value for st in ast.walk(ed.node) if isinstance(st, ast.Assign) and any(isinstance(t, ast.Name) and t.id == e.id for t in st.targets)]
+            v = UNKNOWN
+            for cand in cands:
+                vv = folder.fold(cand, {}, cand)
+                if vv is not UNKNOWN and isinstance(vv, (tuple, list)) and vv and all(isinstance(x, str) for x in vv):
+                    v = vv
+                    break
             if v is not UNKNOWN:
                 casefold = any(isinstance(x, ast.Attribute) and x.attr == "casefold" for k in c.keywords for x in ast.walk(k.value))
                 return tuple(v), casefold, c
@@ -387,12 +400,14 @@ def rule_table_announce(prog, rep, tier):
     # keeps the default in the IR next to the prose, so skipping its decorative sentence loses nothing
     for q, text_is_sole_carrier in (("defaults_utils.set_default_doc", True), ("emitter_utils.parse_out_param", False)):
         fi = prog.fn(q)
-        # P: written template: a str constant containing '{default}'
-        P = [c for c in _consts(fi.node) if "{default}" in c.value]
-        if not P:
-            raise AnalysisError("TABLE-announce: %s no longer writes a default sentence from a constant template" % q)
-        p = P[0]
-        lit = p.value.replace("{doc}", "").replace("{help}", "").replace("{default}", "")
+        # P: the literal fragments of the strings the writer builds (constants, f-strings, .format templates); the written
+        # phrase is a fragment that mentions 'default'
+        frags = {f: nd for f, nd in literal_fragments(fi.node, fi.node).items() if "default" in f.casefold() and f.strip() and len(f) < 60 and f.casefold().strip() != "default"}
+        if not frags:
+            raise AnalysisError("TABLE-announce: %s no longer writes a default sentence with a literal phrase" % q)
+        hit = [f for f in frags if any(r in norm(f) for r in Rn)]
+        lit = hit[0] if hit else sorted(frags)[0]
+        p = frags[lit]
         # (a) the written phrase is one the reader announces
         if any(r in norm(lit) for r in Rn):
             rep.holds("TABLE-announce", "(a) %s writes %r, which contains a reader announcement" % (q, lit), loc(prog, p), "")
@@ -418,7 +433,7 @@ def rule_table_announce(prog, rep, tier):
                     for c in ast.walk(st.value):
                         if isinstance(c, ast.Compare) and len(c.ops) == 1 and isinstance(c.ops[0], (ast.In, ast.NotIn)) and isinstance(c.left, ast.Constant) and isinstance(c.left.value, str):
                             Q.append(c.left)
-        Q = [c for c in Q if c.value not in ("default",)]
+        Q = [c for c in Q if c.value not in ("default", "doc", "typ", "name")]  # key-presence tests of the parameter dict, not prose tests
         if decided_by_reader:
             rep.holds("TABLE-announce", "(b)(c) %s decides 'already announced' by calling the reader (extract_default)" % q, loc(prog, p), "agreement by construction")
             continue
